@@ -337,19 +337,26 @@ def child(project, cache, outfile, sync=False):
 
     state = {"fn": "setup", "ids": {}, "clashes": [], "hits": {}, "queries": {}, "results": [],
              "in_test": False, "in_assert": False, "consumers": [], "low": [], "cb_done": 0,
-             "assert_ids": {}, "probe_n": 0, "freed_reported": set(), "live_cores": lambda: []}
+             "assert_ids": {}, "probe_n": 0, "freed_reported": set(), "live_cores": lambda: [], "events": [], "qpid": {}}
     lock = threading.Lock()
 
     # ---- the consumers of the solver, in the order run_test creates them (main thread)
     orig_pc = hm.PathContext
 
+    # ---- the schedule: path taken (main thread) / look-up of the cache by a worker / callback of a worker, linearised by
+    # one lock held around the look-up and around the whole callback (so the logged order IS the order of reads and appends)
+    evlock = threading.RLock()
+
     def PathContext(**kw):
         pc = orig_pc(**kw)
         if state["in_test"]:
             q = kw["query"]
-            state["consumers"].append({"pid": kw["path_id"], "kind": "assert" if state["in_assert"] else "stuck",
-                                       "ids": [str(i) for i in q.assertions],
-                                       "would_hit": bool(orig_check(q, [list(c) for c in kw["solving_ctx"].unsat_cores]))})
+            with evlock:
+                state["qpid"][id(q)] = (kw["path_id"], q)       # the query object is kept: its id() stays its own
+                state["events"].append(["path", kw["path_id"]])
+                state["consumers"].append({"pid": kw["path_id"], "kind": "assert" if state["in_assert"] else "stuck",
+                                           "ids": [str(i) for i in q.assertions],
+                                           "would_hit": bool(orig_check(q, [list(c) for c in kw["solving_ctx"].unsat_cores]))})
         return pc
 
     hm.PathContext = PathContext
@@ -381,11 +388,14 @@ def child(project, cache, outfile, sync=False):
     orig_cb = hm.CounterexampleHandler._solve_end_to_end_callback
 
     def callback(self, *a, **kw):
-        try:
-            return orig_cb(self, *a, **kw)
-        finally:
-            with lock:
-                state["cb_done"] += 1
+        with evlock:
+            try:
+                return orig_cb(self, *a, **kw)
+            finally:
+                pc = kw.get("path_ctx")
+                state["events"].append(["cb", pc.path_id if pc is not None else -1])
+                with lock:
+                    state["cb_done"] += 1
 
     hm.CounterexampleHandler._solve_end_to_end_callback = callback
     orig_hav = hm.CounterexampleHandler.handle_assertion_violation
@@ -452,7 +462,11 @@ def child(project, cache, outfile, sync=False):
     orig_check = solve.check_unsat_cores
 
     def check_unsat_cores(query, cores):
-        r = orig_check(query, cores)
+        with evlock:
+            r = orig_check(query, cores)
+            known = state["qpid"].get(id(query))
+            if known is not None and known[1] is query:
+                state["events"].append(["start", known[0]])
         if r:
             with lock:
                 state["hits"][state["fn"]] = state["hits"].get(state["fn"], 0) + 1
@@ -463,7 +477,7 @@ def child(project, cache, outfile, sync=False):
 
     def run_test(ctx):
         state["fn"] = ctx.info.name
-        state.update(in_test=True, consumers=[], low=[], cb_done=0)
+        state.update(in_test=True, consumers=[], low=[], cb_done=0, events=[], qpid={})
         state["live_cores"] = lambda: [[str(i) for i in c] for c in ctx.solving_ctx.unsat_cores]
         try:
             res = orig_run_test(ctx)
@@ -491,13 +505,13 @@ def child(project, cache, outfile, sync=False):
                       "valid": (bool(o.model.is_valid) if o.model is not None else None),
                       "core": (None if o.unsat_core is None else [str(i) for i in o.unsat_core])} for o in ctx.solver_outputs],
             "final_cores": [[str(i) for i in c] for c in ctx.solving_ctx.unsat_cores],
-            "consumers": state["consumers"], "low": state["low"],
+            "consumers": state["consumers"], "low": state["low"], "events": state["events"],
         })
         state["fn"] = "between-tests"
         return res
 
     hm.run_test = run_test
-    argv = ["--root", project, "--no-status", "--solver-timeout-assertion", "60000", "--solver-threads", "1"]
+    argv = ["--root", project, "--no-status", "--solver-timeout-assertion", "60000", "--solver-threads", "1" if sync else "2"]
     if cache:
         argv.append("--cache-solver")
     if os.path.exists(os.path.join(project, "INVARIANT")):
@@ -650,6 +664,43 @@ def model_test_call(res, cache):
     return ("c16_test", [1 if cache else 0, n] + arg), impl
 
 
+def model_sched_call(res, cache):
+    """one finished test of a racing run -> the c16_sched call (the schedule the implementation went through: paths
+    taken, look-ups and callbacks in the order the child linearised them) and what the implementation showed"""
+    (_, targ), impl = model_test_call(res, cache)
+    index = {c["pid"]: i for i, c in enumerate(res["consumers"])}
+    evs = []
+    for kind, pid in res["events"]:
+        if pid in index:
+            evs += [{"path": 0, "start": 1, "cb": 2}[kind], index[pid]]
+    for i in range(res["num_paths"][1]):
+        evs += [0, len(res["consumers"]) + i]
+    impl = {k: impl[k] for k in ("exit", "stuck", "normal", "outs", "cores")}
+    impl["pending"] = 0
+    return ("c16_sched", [targ[0], len(evs) // 2] + evs + targ[1:]), impl
+
+
+def decode_model_sched(v):
+    from harness.props.C16 import dec_reply, dec_strs
+
+    out = {"exit": EXIT_OF_VERDICT.get(v[0], -1), "stuck": v[1], "normal": v[2]}
+    i = 4
+    outs = []
+    for _ in range(v[3]):
+        rr, i = dec_reply(v, i)
+        outs.append(rr)
+    out["outs"] = outs
+    out["pending"] = v[i]
+    nc = v[i + 1]
+    i += 2
+    cores = []
+    for _ in range(nc):
+        c, i = dec_strs(v, i)
+        cores.append(c)
+    out["cores"] = cores
+    return out
+
+
 def decode_model_test(v):
     from harness.props.C16 import dec_reply, dec_strs
 
@@ -786,19 +837,20 @@ def run_e2e(rep, tier, r, fail, m=None):
                 fail("failing-input", f"project {k} {name}: verdict/counterexamples differ: cache on exit={a['exitcode']} outputs={a['outputs']} leaves={sorted(la)}; cache off exit={b_['exitcode']} outputs={b_['outputs']} leaves={sorted(lb)}",
                      tcase, sig={"observable": "on-vs-off-e2e"})
             # ---- sync runs are sequential histories: the model's test_run on the replies the implementation saw
-            if sync and m is not None:
+            # racing runs (two workers): the schedule the child linearised, through the model's sched_run
+            if m is not None:
                 for cache, res in ((True, a), (False, b_)):
-                    call, impl = model_test_call(res, cache)
+                    call, impl = model_test_call(res, cache) if sync else model_sched_call(res, cache)
                     mcalls.append(call)
                     mimpl.append(impl)
                     mwhere.append((k, name, cache, tcase))
     if mcalls:
         for (k, name, cache, tcase), impl, mv in zip(mwhere, mimpl, m.parallel_batch(mcalls)):
             tot_model += 1
-            mo = decode_model_test(mv) if mv else None
+            mo = (decode_model_test(mv) if "skipped" in impl else decode_model_sched(mv)) if mv else None
             if mo != impl:
                 diff = sorted(key for key in impl if mo is None or mo.get(key) != impl[key])
-                fail("broken-tie", f"project {k} {name} (cache {'on' if cache else 'off'}): run_test and the model's test_run differ in {diff}: implementation {impl}, model {mo}",
+                fail("broken-tie", f"project {k} {name} (cache {'on' if cache else 'off'}): run_test and the model's {'test_run' if 'skipped' in impl else 'sched_run'} differ in {diff}: implementation {impl}, model {mo}",
                      dict(tcase, cache=cache, implementation=impl, model=mo))
     rep.coverage["L3_queries"] = tot_q
     rep.coverage["L3_cache_hits"] = tot_hits
